@@ -150,7 +150,7 @@ def rule_layout(rep, db, cfg):
         r, c = int(ta[0].rstrip("U")), int(ta[1].rstrip("U"))
         try:
             v, ev = run(db, cfg, fn)
-            k = single_cell(v, ev, "r_a0")
+            k = single_cell(v, ev, fn["params"][0]["name"])
         except (Broken, sx.Unsupported, P.Unresolved) as e:
             rep.broken("C14 LAYOUT: at_r_c<%d,%d> on %dx%d: %s" % (r, c, sh[1], sh[2], e))
             continue
@@ -185,7 +185,7 @@ def rule_layout(rep, db, cfg):
             i = int(ta[0].rstrip("U"))
             try:
                 v, ev = run(db, cfg, fn)
-                k = single_cell(v, ev, "r_a0")
+                k = single_cell(v, ev, fn["params"][0]["name"])
             except (Broken, sx.Unsupported, P.Unresolved) as e:
                 rep.broken("C14 LAYOUT: %s<%d> on dimension %d: %s" % (nm, i, sh[1], e))
                 continue
@@ -202,14 +202,14 @@ def rule_layout(rep, db, cfg):
             store[N] = {i: k for i, (k, _) in m.items()}
             rep.ok("LAYOUT", key, F.primary_site(fn0), F.describe(fn0), "bijection")
     # named accessors x() y() z() w() agree with at<0..3>
-    for cls, store in (("fcppt::math::vector::object", lay.vec),):
-        for j, nm in enumerate(("x", "y", "z", "w")):
+    for cls, store, names in (("fcppt::math::vector::object", lay.vec, ("x", "y", "z", "w")), ("fcppt::math::dim::object", lay.dim, ("w", "h", "d"))):
+        for j, nm in enumerate(names):
             for fn in db.fns(cls + "::" + nm):
                 rt = fn.get("rec_targs") or []
                 if len(rt) < 3 or not str(rt[2]).startswith("fcppt::math::detail::static_storage<") or not fn.get("const"):
                     continue
                 N = int(str(rt[1]).rstrip("U"))
-                key = "%s()|%d" % (nm, N)
+                key = "%s::%s()|%d" % (cls.split("::")[2], nm, N)
                 if N not in store:
                     continue
                 try:
@@ -592,13 +592,21 @@ def rule_inplace(rep, db, cfg, lay):
 # VIEW scenarios (driver functions whose bodies apply library operations to row views)
 
 def rule_view(rep, db, cfg, lay):
-    rep.rule("VIEW", "operations on a row view of a matrix read the elements of the viewed row", floor=8)
+    rep.rule("VIEW", "operations on a row view of a matrix read the elements of the viewed row; construction from rows / elements keeps their order", floor=12)
     specs = {
         "scenario_row_plus": lambda ta, o: ({(c,): o[0](ta[2], c) + o[1](c) for c in range(ta[1])}, "row I + v"),
         "scenario_row_dot": lambda ta, o: ({(): sum((o[0](ta[2], c) * o[0](ta[3], c) for c in range(ta[1])), Poly())}, "row I . row J"),
         "scenario_row_scale": lambda ta, o: ({(c,): o[0](ta[2], c) * o[1].scalar() for c in range(ta[1])}, "row I * s"),
         "scenario_row_copy": lambda ta, o: ({(c,): o[0](ta[2], c) for c in range(ta[1])}, "copy of row I"),
     }
+    def scal(o, n):
+        return [x.scalar() for x in o[:n]]
+    specs.update({
+        "scenario_rows_2x3": lambda ta, o: ({(r, c): o[r * 3 + c].scalar() for r in range(2) for c in range(3)}, "rows in order, elements in order"),
+        "scenario_rows_3x2": lambda ta, o: ({(r, c): o[r * 2 + c].scalar() for r in range(3) for c in range(2)}, "rows in order, elements in order"),
+        "scenario_elements_4": lambda ta, o: ({(i,): o[i].scalar() for i in range(4)}, "elements in order"),
+        "scenario_dim_elements_3": lambda ta, o: ({(i,): o[i].scalar() for i in range(3)}, "elements in order"),
+    })
     for nm, mk in specs.items():
         fns = db.fns("(anonymous namespace)::" + nm)
         if not fns:
